@@ -438,4 +438,73 @@ def readAll {α : Type} (env : Env α) (file : Bytes) : List α × End :=
     (r.1, if r.2 then .clean else .flowRead)
   else streamLoop env (p.2.length + 1) 0 p.2
 
+-- ------------------------------------------------------------------------------------------------
+-- specification vocabulary (used only in theorem statements)
+-- ------------------------------------------------------------------------------------------------
+mutual
+/-- the value with the items of every dict in reverse order (what a dump/load cycle does to iteration order) -/
+def mirror : Value → Value
+  | .null => .null
+  | .bool b => .bool b
+  | .int i => .int i
+  | .float t => .float t
+  | .bytes b => .bytes b
+  | .str b => .str b
+  | .list l => .list (mirrorList l)
+  | .dict kvs => .dict (mirrorPairsRev kvs)
+def mirrorList : List Value → List Value
+  | [] => []
+  | v :: t => mirror v :: mirrorList t
+def mirrorPairsRev : List (Value × Value) → List (Value × Value)
+  | [] => []
+  | (k, v) :: t => mirrorPairsRev t ++ [(mirror k, mirror v)]
+end
+
+mutual
+/-- values that `dumps` accepts and `load` can read back: ints within CPython's 4300-digit limit for
+    int(str), float tokens that float() accepts (repr output), str payloads valid UTF-8, hashable keys -/
+def WF : Value → Prop
+  | .null => True
+  | .bool _ => True
+  | .int i => (natDec i.natAbs).length ≤ maxStrDigits
+  | .float t => isFloatTok t = true
+  | .bytes _ => True
+  | .str b => utf8Valid b = true
+  | .list l => WFList l
+  | .dict kvs => WFPairs kvs
+def WFList : List Value → Prop
+  | [] => True
+  | v :: t => WF v ∧ WFList t
+def WFPairs : List (Value × Value) → Prop
+  | [] => True
+  | (k, v) :: t => (WF k ∧ hashable k = true ∧ WF v) ∧ WFPairs t
+end
+
+mutual
+/-- container nesting below the value itself -/
+def depth : Value → Nat
+  | .list l => depthList l
+  | .dict kvs => depthPairs kvs
+  | _ => 0
+def depthList : List Value → Nat
+  | [] => 0
+  | v :: t => max (depth v + 1) (depthList t)
+def depthPairs : List (Value × Value) → Nat
+  | [] => 0
+  | (k, v) :: t => max (max (depth k + 1) (depth v + 1)) (depthPairs t)
+end
+
+/-- equality of values with dicts compared as finite maps (item order is irrelevant) -/
+inductive Equiv : Value → Value → Prop
+  | refl (v : Value) : Equiv v v
+  | trans {a b c : Value} : Equiv a b → Equiv b c → Equiv a c
+  | listCons {v v' : Value} {t t' : List Value} :
+      Equiv v v' → Equiv (.list t) (.list t') → Equiv (.list (v :: t)) (.list (v' :: t'))
+  | dictPerm {kvs kvs' : List (Value × Value)} : kvs.Perm kvs' → Equiv (.dict kvs) (.dict kvs')
+  | dictCons {k k' v v' : Value} {t t' : List (Value × Value)} :
+      Equiv k k' → Equiv v v' → Equiv (.dict t) (.dict t') → Equiv (.dict ((k, v) :: t)) (.dict ((k', v') :: t'))
+
+/-- size bound under which every length prefix inside `enc v` is within the 4300-digit int() limit -/
+def sizeLimit : Nat := 10 ^ maxStrDigits
+
 end MitmVerif.C36
